@@ -14,6 +14,9 @@ type Config struct {
 	Body      func()        // the program under test (called once per execution, must build its world afresh)
 	Check     func(x *Exec) // called after every complete execution (may record violations via Fail)
 	NoPrune   bool
+	// Shard/Shards split one exploration over processes: the subtrees hanging off the default execution are dealt
+	// round-robin; every shard keeps its own visited set (less pruning across shards, same coverage in total).
+	Shard, Shards int
 }
 
 // Failure is a property violation found in one execution.
@@ -123,9 +126,11 @@ func (x *explorer) explore(prefix []int, used int) {
 	case e.Panic != "":
 		Fail("panic", e.Panic)
 	}
-	if x.cfg.Check != nil {
+	top := len(prefix) == 0 && x.cfg.Shards > 1
+	if x.cfg.Check != nil && !(top && x.cfg.Shard != 0) {
 		x.cfg.Check(e)
 	}
+	subtree := 0
 	// cost used up to each point
 	cost := used
 	costs := make([]int, len(e.Points))
@@ -154,6 +159,12 @@ func (x *explorer) explore(prefix []int, used int) {
 			}
 			if x.cfg.Bound >= 0 && costs[i]+altCost(p, alt) > x.cfg.Bound {
 				continue
+			}
+			if top {
+				subtree++
+				if subtree%x.cfg.Shards != x.cfg.Shard {
+					continue
+				}
 			}
 			np := append(append([]int{}, sched[:i]...), alt)
 			x.explore(np, costs[i]+altCost(p, alt))
